@@ -200,3 +200,14 @@ Definition shot_check (n : nat) (xs : list xop) (psi : list Zi) (draws : list na
    in the order they were given *)
 Definition flip_shot (k : nat) (mask : bits) (s : nat) : nat :=
   to_dec (map (fun p => xorb (fst p) (snd p)) (combine (to_bin k s) mask)).
+
+(* ---- the caches written on the circuit's measurement gates (what the handles returned by
+   circuit.add show): decimal samples and frequencies per gate at the end of a history *)
+Definition final_gates (cfg : config) (h : list op) : list (option (list nat) * option counter) :=
+  map (fun g => (option_map (map to_dec) (gs g), gf g)) (m_gates (snd (run cfg (init cfg) h))).
+Definition gates_eqb (a b : list (option (list nat) * option counter)) : bool :=
+  list_eqb (fun p q => opt_eqb (list_eqb Nat.eqb) (fst p) (fst q) && opt_eqb counter_eqb (snd p) (snd q)) a b.
+(* specification of a handle's frequencies right after result.frequencies() drew the global
+   Counter fdraw: the register projection of those shots, summing to nshots *)
+Definition handle_freq_okb (cfg : config) (reg : list nat) (fdraw hf : counter) (ns : nat) : bool :=
+  counts_okb hf (map (spec_reg_dec cfg reg) (expand fdraw)) && (total hf =? ns).
